@@ -236,8 +236,8 @@ def finishP {σ} (o : Opts) (depth : Nat) (e : Entry) :
   | (some r, st', w') => (some r, st', w')
   | (none, st', w') =>
     if depth < o.minDepth then (none, st', w')
-    else if e.dir ∧ o.contentsFirst then (none, { st' with deferred := e :: st'.deferred }, w')
     else if (o.files ∧ !e.file) ∨ (!o.files ∧ o.dirs ∧ !e.dir) then (none, st', w')
+    else if e.dir ∧ o.contentsFirst then (none, { st' with deferred := e :: st'.deferred }, w')
     else (some (.ok e), st', w')
 
 theorem process_eq {σ} (snap : Snap) (o : Opts) (preOp : Entry → σ → Outcome Unit × σ)
@@ -320,11 +320,11 @@ theorem process_spec {σ} {snap : Snap} (wf : SnapWF snap) {o : Opts} (hfo : o.f
     split
     · exact ⟨by simp, h2, by simp only; omega, h4⟩
     · split
-      · refine ⟨by simp, h2, ?_, h4⟩
-        simp only [G0, List.length_cons] at h3 ⊢
-        omega
+      · exact ⟨by simp, h2, by simp only; omega, h4⟩
       · split
-        · exact ⟨by simp, h2, by simp only; omega, h4⟩
+        · refine ⟨by simp, h2, ?_, h4⟩
+          simp only [G0, List.length_cons] at h3 ⊢
+          omega
         · exact ⟨by simp, h2, by simp only; omega, h4⟩
 
 /-! ### `nextLoop` -/
